@@ -126,6 +126,8 @@ type DocOp struct {
 	// nil = no security member. Declared: every scheme name the document declares.
 	Security [][]string
 	Declared map[string]bool
+	// Style: "in:name" -> serialisation style of the parameter (OpenAPI 3; "" = the default of its location)
+	Style map[string]string
 }
 
 // C07 judges the OpenAPI documents of one design. mounted: service -> (verb, pattern) pairs
@@ -473,9 +475,11 @@ func opsOf3(doc *openapi3.T) map[string]*DocOp {
 	for p, item := range doc.Paths.Map() {
 		for verb, op := range item.Operations() {
 			d := &DocOp{Verb: verb, Path: p, Params: map[string]bool{}, Codes: map[string]bool{}}
+			d.Style = map[string]string{}
 			for _, pr := range append(append(openapi3.Parameters{}, item.Parameters...), op.Parameters...) {
 				if pr.Value != nil {
 					d.Params[pr.Value.In+":"+pr.Value.Name] = pr.Value.Required
+					d.Style[pr.Value.In+":"+pr.Value.Name] = pr.Value.Style
 				}
 			}
 			if op.RequestBody != nil && op.RequestBody.Value != nil && len(op.RequestBody.Value.Content) > 0 {
@@ -645,6 +649,21 @@ func checkOp(sp *spec.Spec, sv *spec.Service, m *spec.Method, op *DocOp, docName
 	if docName == "openapi3" {
 		for _, l := range h.Cookies {
 			want["cookie:"+l.WireName()] = wantP{required(l.Attr), false}
+		}
+		// a map carried by the query string is read by the server as name[key]=value: the deepObject style; any other
+		// style describes other requests than the ones the server understands
+		if isObj {
+			for _, l := range h.Query {
+				a := prt.Attr(l.Attr)
+				if a == nil {
+					continue
+				}
+				if at, _ := sp.Resolve(a.Type); at != nil && at.Kind == spec.Map {
+					if st, ok := op.Style["query:"+l.WireName()]; ok && st != "deepObject" {
+						v.add("parameter-style:openapi3:query-map:not-deepObject", "%s %s: the map parameter %s is documented with style %q, the server reads %s[key]=value (deepObject)", op.Verb, op.Path, l.WireName(), st, l.WireName())
+					}
+				}
+			}
 		}
 	}
 	lower := func(m map[string]bool) map[string]bool {
